@@ -187,6 +187,8 @@ class GroupRecord (object):
     offset += 1+1+2+4
     addr = IPAddr(addr)
     auxlen *= 4
+    if len(raw) - offset < n * 4:
+      raise struct.error("IGMPv3 group record is missing source addresses")
     addrs = []
     for _ in range(n):
       addrs.append( IPAddr(raw[offset:offset+4])  )
